@@ -406,6 +406,16 @@ package shimagent
 //@   ensures [nothing-listed-is-outside-its-validity-window] (!old(s.locked) && ret(filter, f0, 2) == nil) ==> (calls(time.Now) == t0 + 1 &&
 //@     forall(i, 0 <= i && i < len(result0), okBlob(akBlob(result0[i]), tUnix(ret(time.Now, t0, 0))) || (sha(akBlob(result0[i])) in dom(s.certs))) &&
 //@     forall(h#bytes, h in dom(s.certs), validAt(s.certs[h].Certificate, tUnix(ret(time.Now, t0, 0)))))
+//@   # the "nothing else is hidden" half, after the final sort (a permutation): every in-memory certificate is listed
+//@   ensures [in-memory-certificates-stay-listed] (!old(s.locked) && ret(filter, f0, 2) == nil) ==>
+//@     forall(h#bytes, h in dom(s.certs), exists(i, 0 <= i && i < len(result0), akBlob(result0[i]) == blobid(asKey(s.certs[h]))))
+//@   # ... and so is every identity the purge left in the underlying agent, unless it is a certificate that is cached as an upstream
+//@   # YSSHCA certificate or hidden by the no-upstream rule (lk: the purged listing)
+//@   ensures [visible-upstream-identities-stay-listed] (!old(s.locked) && ret(filter, f0, 2) == nil) ==>
+//@     forall(j, 0 <= j && j < len(ret(filter, f0, 1)),
+//@       (!(certBlob(blobid(asKey(ret(filter, f0, 1)[j]))) && parseOKid(blobid(asKey(ret(filter, f0, 1)[j])))) ||
+//@        (!(sha(blobid(asKey(ret(filter, f0, 1)[j]))) in dom(s.upstreamSSHCACertCache)) && !(s.noUpstreamSSHCACert && hiddenBlob(blobid(asKey(ret(filter, f0, 1)[j])))))) ==>
+//@       exists(i, 0 <= i && i < len(result0), result0[i] == ret(filter, f0, 1)[j] || akBlob(result0[i]) == blobid(asKey(ret(filter, f0, 1)[j]))))
 //@   loop 1:
 //@     invariant calls(time.Now) == t0 + 1
 //@     invariant forall(j, 0 <= j && j < len(keysInAgent), okBlob(kb(keysInAgent[j]), tUnix(ret(time.Now, t0, 0))), keysInAgent[j])
